@@ -158,8 +158,17 @@ def check_cfg(ctx, fx, cfg):
         if has_stop:
             b = ctx.body(fx, f)
             sk = upvar_sinks(b, has_stop[0])
+            # a crate-local helper may stand between the loop and notify(): follow the value into it (bounded)
+            sk2 = []
+            for s in sk:
+                c = (s["t"].get("resolved") or s["t"].get("callee")) if s["k"] == "call" else None
+                if c and c in fx.fns and c != "context::StopNotifier::notify":
+                    sk2.extend(graph.param_sinks(fx, c, s["idx"] + 1))
+                else:
+                    sk2.append(s)
+            sk = sk2
             calls = [s for s in sk if s["k"] == "call"]
-            bad = [s for s in sk if s["k"] in ("agg", "store", "ret", "yield")] + [s for s in calls if s["t"].get("callee") != "context::StopNotifier::notify"]
+            bad = [s for s in sk if s["k"] in ("agg", "store", "ret", "yield", "unknown")] + [s for s in calls if s["t"].get("callee") != "context::StopNotifier::notify"]
             ctx.require(len(calls) >= 1 and not bad, "R02.3", inst + ":notifier-use", "the stop notifier must be consumed only by notify(): %s" % [(s["k"], s.get("t", {}).get("callee")) for s in bad], fn=f["def"], site=f["loc"])
     run_loops(ctx, fx, "R02.3", {"L3", "L6"})
     # R02.4 leak census
